@@ -85,9 +85,11 @@ CLAIMED = {
             "accepted iff it conforms to its documented kind, for all integers, all token kinds and every binding of "
             "a symbol; hence an operation passes the generic type-check iff it has exactly the documented operands; "
             "each step of the program-level check reports an error iff the operation is rejected, or is data after "
-            "code, an interrupt where unsupported, or a debugging op under --no-debug-ops. The composition over whole "
-            "programs (constant scoping, redeclaration, far branches) is decided on an enumerated grid (complete in "
-            "the thorough tier) against an independent re-implementation of the documented rules.",
+            "code, an interrupt where unsupported, or a debugging op under --no-debug-ops; a whole program is accepted "
+            "iff no symbol is redeclared, the layout pass reports nothing and every operation passes those rules with "
+            "the constants declared before it (no other source of rejection). Far branches are C04/C08. The Preproc "
+            "model itself is tied by correspondence on an enumerated grid (complete in the thorough tier) against an "
+            "independent re-implementation of the documented rules.",
             "trusted: Model/Preproc.v (differential on the grid), Spec/Signature.v, the oracle in tools/props/C09.py"),
     "C11": ("Coq theorems over the hand models of the interpreter loop (Model/Run.v) and of Debugger.next / real_ops / "
             "finished and the next/step/continue handlers (Model/Debugger.v), executing the operation semantics "
@@ -157,8 +159,8 @@ CLAIMED = {
             "without #else, arbitrary text in discarded regions) the keep-stack machine of evaluate_ifdefs (Model/Ifdef.v, "
             "line-level) outputs exactly what a C preprocessor with only HERA_PY defined keeps, compositionally inside any "
             "context; include processing (Model/Include.v, abstract) terminates on every include graph, reports an include "
-            "of a file that is being parsed at that directive and goes on, and splices any other file in place whether or "
-            "not it was included before. NOT theorems: path resolution (dirname/join/realpath), read errors, attribution of "
+            "of a file that is being parsed at that directive and goes on, splices any other file in place whether or "
+            "not it was included before, and - when no cycle is reported - yields exactly the plain textual splice. NOT theorems: path resolution (dirname/join/realpath), read errors, attribution of "
             "diagnostics to the included file — decided by the include oracle on generated directory trees (nested "
             "directories, diamonds, cycles of any length, ./ and ../ spellings, missing files).",
             "trusted: Model/Ifdef.v, Model/Include.v, Spec/CondSpec.v; include oracle"),
